@@ -68,6 +68,7 @@ pub fn cmd_choice(a: &Args) {
     let mut errors: Vec<Value> = vec![];
     let mut nst = 0usize;
     let mut nsub = 0usize;
+    let mut nladder = 0usize;
     for idx in 0..ncases {
         let mut rng = gen::rng_for(seed, 7000 + idx as u64);
         let bps = [8usize, 12, 16, 20, 24][idx % 5];
@@ -155,6 +156,35 @@ pub fn cmd_choice(a: &Args) {
                 errors.push(json!({"id": id, "what": e}));
                 continue;
             }
+            // the fixed-predictor order ladder: maximum orders 0..4 with order selection by bit count
+            if idx % 3 == 1 {
+                let mut lruns = vec![];
+                let mut lbad = None;
+                for j in 0..=4usize {
+                    let mut c = cfg.clone();
+                    c.use_constant = false;
+                    c.use_fixed = true;
+                    c.use_lpc = false;
+                    c.partitions = None;
+                    c.fixed_max_order = j;
+                    match frame_of(&c, &[x.clone()], bps) {
+                        Ok(f) => {
+                            let s = f.subframe(0).unwrap();
+                            let order = if let SubFrame::FixedLpc(fl) = s { fl.order() as i64 } else { 0 };
+                            lruns.push(json!({"j": j, "kind": kind_of(s), "order": order, "bits": s.count_bits()}));
+                        }
+                        Err(e) => lbad = Some(e),
+                    }
+                }
+                match lbad {
+                    None => {
+                        classes.insert(format!("ladder/{bps}/{}", lruns.iter().map(|r| r["order"].to_string()).collect::<String>()));
+                        nladder += 1;
+                        sh.push(5, vec![json!({"ev": "ladder", "id": format!("ld-{seed}-{idx}"), "n": n, "bps": bps, "family": family, "runs": lruns})]);
+                    }
+                    Some(e) => errors.push(json!({"id": format!("ld-{seed}-{idx}"), "what": e})),
+                }
+            }
             classes.insert(format!("sf/{bps}/{family}/{}", runs.iter().map(|r| r["kind"].as_str().unwrap()[..1].to_string()).collect::<String>()));
             nsub += 1;
             sh.push(5, vec![json!({"ev": "sub", "id": id, "n": n, "bps": bps, "family": family, "isconst": isconst, "runs": runs})]);
@@ -162,5 +192,5 @@ pub fn cmd_choice(a: &Args) {
         let _ = rng.gen::<u8>();
     }
     let files = sh.write(a.num("shards", 4) as usize);
-    println!("{}", json!({"cases": nst + nsub, "stereo": nst, "sub": nsub, "classes": classes.len(), "errors": errors, "files": files}));
+    println!("{}", json!({"cases": nst + nsub + nladder, "stereo": nst, "sub": nsub, "ladder": nladder, "classes": classes.len(), "errors": errors, "files": files}));
 }
